@@ -208,6 +208,31 @@ def direction(chk, judge: Judge, hist_name, nets, kind, form):
                       judge.rep({"form": form}, -1, hist_name, accumulated_net=total, wanted_sign=want))
 
 
+ANCHOR_PLAIN = {"STDP", "StableSTDP", "TripletSTDP", "StableTripletSTDP", "MSTDP", "KernelSTDP"}
+ANCHOR_DELAYED = {"DelayAdjustedSTDP", "DelayAdjustedSTDPD", "DelayAdjustedMSTDP", "DelayAdjustedMSTDPD",
+                  "DelayAdjustedKernelSTDP", "DelayAdjustedKernelSTDPD"}
+
+
+def anchor_value(kind, hname, red, shape):
+    """Documented magnitude of the triggered term for ONE pair of spikes three steps apart on
+    every synapse of every sample (decay 1/2 per step): |eta| * 2^-3 for the trace / kernel
+    rules, |eta| * 2^-|3 -/+ d| for the delay-adjusted ones (adjusted difference
+    t_post - t_pre - d), times |reward * scale| = 1 for the reward-modulated rules, reduced
+    over the batch of B identical samples."""
+    from ..impl_split import DELAYS
+    mag = MAG1 if hname == "causal" else MAG2
+    if kind in ANCHOR_PLAIN:
+        per = torch.full(shape, mag * 2.0 ** -3)
+    elif kind in ANCHOR_DELAYED:
+        d = torch.tensor(DELAYS)
+        per = mag * 2.0 ** (-(3.0 - d).abs()) if hname == "causal" else mag * 2.0 ** (-(3.0 + d))
+    else:
+        return None
+    if KINDS[kind][2] == 3:
+        per = per * (SIG_SCALAR * SCALE)
+    return per * B if red == "sum" else per
+
+
 # ------------------------------------------------------------------ A: the trainers
 def check_match_kind(chk, tables, kind, red, hists, cfgs, do_bounds):
     """Two- and three-factor rules routed by match statements, and the kernel rules with the
@@ -262,7 +287,8 @@ def check_match_kind(chk, tables, kind, red, hists, cfgs, do_bounds):
                                    else "neg-part-sign", "site": site_of(kind), "kind": kind, "form": base["form"],
                                    "where": "reference-hebbian"},
                                   {"kind": kind, "history": hname, "step": step, "term": t, "value": M[t].tolist()})
-            # anchors: the causal term is the only one triggered by a causal pair, and vice versa
+            # anchors: the causal term is the only one triggered by a causal pair, and vice versa;
+            # its magnitude is the documented closed form for one pair three steps apart
             if hname in ("causal", "anticausal") and step == 3:
                 live, dead = ("T1", "T2") if hname == "causal" else ("T2", "T1")
                 chk.evaluations += 1
@@ -270,6 +296,14 @@ def check_match_kind(chk, tables, kind, red, hists, cfgs, do_bounds):
                     chk.violation({"clause": "causal-term", "site": site_of(kind), "kind": kind, "history": hname},
                                   {"kind": kind, "history": hname, "step": step, "T1": M["T1"].tolist(),
                                    "T2": M["T2"].tolist()})
+                want = anchor_value(kind, hname, red, shape)
+                if want is not None:
+                    chk.evaluations += 1
+                    if not close(M[live], want):
+                        chk.violation({"clause": "anchor-magnitude", "site": site_of(kind), "kind": kind,
+                                       "history": hname},
+                                      {"kind": kind, "history": hname, "step": step, "reduction": red,
+                                       "observed": M[live].tolist(), "closed_form": want.tolist()})
             # ---- every configuration, every call
             for cfg, run in runs.items():
                 run.step(pre, post)
@@ -477,3 +511,39 @@ def run(tier: str, seed: int) -> int:
     if "not_constructible" in chk.extra:
         chk.extra["not_constructible"] = sorted(chk.extra["not_constructible"])
     return chk.finish()
+
+
+def replay(path: str) -> int:
+    """./check C09 --replay <file>: re-run the recorded trainer kind (same seed, every sign
+    configuration) and report whether the recorded clause fails again."""
+    import json, os
+    doc = json.load(open(path))
+    sig = doc["signature"]
+    kind = sig.get("kind")
+    if kind not in KINDS:
+        print(json.dumps(doc, indent=1)[:4000])
+        return 2
+    seed = int(os.environ.get("VERIF_SEED", "20261003"))
+    chk = Check(PID, "quick", seed)
+    chk.known = []
+    tables = routing_tables(chk)
+    rng = random.Random(seed)
+    for k in KINDS:                       # consume the generator exactly as run() does
+        hists = histories(rng, 5)
+        if k != kind:
+            continue
+        red = doc["replay"].get("reduction", "sum")
+        if kind in HOMEO_KINDS:
+            check_homeostasis(chk, tables, kind, red, hists[:1], do_bounds=True)
+        else:
+            check_match_kind(chk, tables, kind, red, hists, rate_classes(kind), do_bounds=True)
+            if kind in CLAMP_KINDS:
+                check_probe_kernels(chk, tables, kind, red, rng, 5)
+    again = [v for v in chk.violations if v["signature"].get("clause") == sig.get("clause")]
+    for v in chk.violations:
+        print("  ", json.dumps(v["signature"], sort_keys=True))
+    if again:
+        print(f"VIOLATION property={PID} replay={again[0]['path']}")
+        return 1
+    print("replay: the recorded clause holds on the current tree")
+    return 0
